@@ -83,6 +83,19 @@ fn can_reuse_metrics(
     coeffs == Affine::IDENTITY.as_coeffs()
 }
 
+/// Round a component offset to the i16 that glyf stores.
+///
+/// An offset that does not fit is an error (as it is in fonttools); casting
+/// would silently saturate it and move the component.
+fn component_offset(value: f64) -> Result<i16, GlyphProblem> {
+    let rounded: f64 = value.ot_round();
+    if (i16::MIN as f64..=i16::MAX as f64).contains(&rounded) {
+        Ok(rounded as i16)
+    } else {
+        Err(GlyphProblem::ComponentOffsetOutOfRange)
+    }
+}
+
 fn create_component_ref_gid(
     gid: GlyphId16,
     transform: &Affine,
@@ -104,8 +117,8 @@ fn create_component_ref_gid(
     let component = Component::new(
         gid,
         Anchor::Offset {
-            x: e.ot_round(),
-            y: f.ot_round(),
+            x: component_offset(e)?,
+            y: component_offset(f)?,
         },
         Transform {
             xx: F2Dot14::from_f64(a),
